@@ -101,7 +101,7 @@ def run_pair(case, ctx=None):  # pylint: disable=too-many-locals,too-many-branch
 
 def run_shard(ctx):
     quick = ctx.tier == 'quick'
-    ctx.set_budget(70 if quick else 2400)
+    ctx.set_budget(70 if quick else 1100)
 
     def run_one(case):
         _, fp, _, labels = run_pair(case, ctx)
